@@ -73,8 +73,9 @@ def ensure_facts(feats="", repo=None, tag=None):
                 sys.stdout.write(r.stdout)
                 sys.stderr.write(r.stderr)
                 raise SystemExit("mtsa: fact extraction failed for features=%r (does /repo compile?)" % feats)
+        facts = Facts(out)   # read under the lock: a concurrent run on another tree may replace this configuration's file
         fcntl.flock(lk, fcntl.LOCK_UN)
-    return Facts(out)
+    return facts
 
 
 class Violation:
@@ -206,19 +207,27 @@ def finish(ctx, level, explanation, assumptions, t0, extra_cov=None):
     }
     with open(os.path.join(evdir, "%s.json" % ctx.pid), "w") as f:
         json.dump(ev, f, indent=1)
-    print("== %s tier=%s: %d obligations, %d discharged, %d functions, %.1fs" % (
-        ctx.pid, ctx.tier, n_ob, n_ok, len(ctx.functions), time.time() - t0))
+    lines = ["== %s tier=%s: %d obligations, %d discharged, %d functions, %.1fs" % (
+        ctx.pid, ctx.tier, n_ob, n_ok, len(ctx.functions), time.time() - t0)]
     for rid, txt in ctx.rules_text.items():
         n = sum(1 for o in ctx.obligations if o["rule"] == rid)
-        print("  rule %-8s %3d instances  %s" % (rid, n, txt[:110]))
+        lines.append("  rule %-8s %3d instances  %s" % (rid, n, txt[:110]))
     for v in kf:
-        print("KNOWN-FINDING: property=%s %s :: %s" % (ctx.pid, v.key, known[v.key]))
+        lines.append("KNOWN-FINDING: property=%s %s :: %s" % (ctx.pid, v.key, known[v.key]))
     if real:
         rp = os.path.join(repdir, "%s.json" % ctx.pid)
         with open(rp, "w") as f:
             json.dump({"property": ctx.pid, "tier": ctx.tier, "violations": [v.to_json() for v in real]}, f, indent=1)
         for v in real:
-            print("  violation rule=%s fn=%s construct=%s at %s\n      %s" % (v.rule, v.fn, v.construct, v.where or "?", v.msg))
-        print("VIOLATION property=%s replay=reports/%s.json" % (ctx.pid, ctx.pid))
-        return 1
-    return 0
+            lines.append("  violation rule=%s fn=%s construct=%s at %s\n      %s" % (v.rule, v.fn, v.construct, v.where or "?", v.msg))
+        lines.append("VIOLATION property=%s replay=reports/%s.json" % (ctx.pid, ctx.pid))
+    try:
+        sys.stdout.write("\n".join(lines) + "\n")
+        sys.stdout.flush()
+    except BrokenPipeError:
+        # the reader closed the pipe early: the verdict is still the exit status
+        try:
+            sys.stdout = open(os.devnull, "w")
+        except OSError:
+            pass
+    return 1 if real else 0
